@@ -663,3 +663,81 @@ step_harness!(c01_step_canary, {
     check_step(PushInt(x), &[repr_of(a), repr_of(b)], (None, None), Expect { frame: Some(pad(&[a, b, V::I(x)])) });
     assert!(false, "canary");
 });
+
+// ---------------------------------------------------------------------------------------------
+// construction (variants / records): the zero-argument forms push a bare tag; `CloseData` fills a
+// previously allocated object from the stack; `ConstructVariant` with arguments allocates through
+// the real `Gc::alloc` (TypeInfo interning stubbed).
+// Written in the third session; NOT decided yet (the one probe was stopped at 16 GB after 8 min
+// while the machine was short of memory): extended tier, not registered.
+// ---------------------------------------------------------------------------------------------
+use crate::gc::__verif_common__vm_gc::type_info_stub;
+
+//@ tier=extended cap=1800 mem=12 funcs=ExecuteContext::execute_ bound=frame_of_2_slots;tag_any_u32;args=0
+step_harness!(c01_step_ConstructVariant_0, {
+    let (a, b) = (any_scalar(), any_scalar());
+    let tag: VmTag = kani::any();
+    check_step(ConstructVariant { tag, args: 0 }, &[repr_of(a), repr_of(b)], (None, None), Expect { frame: Some(pad(&[a, b, V::T(tag)])) });
+});
+
+//@ tier=extended cap=1800 mem=12 funcs=ExecuteContext::execute_ bound=frame_of_2_slots;tag_any_u32;args=0
+step_harness!(c01_step_NewVariant_0, {
+    let (a, b) = (any_scalar(), any_scalar());
+    let tag: VmTag = kani::any();
+    check_step(NewVariant { tag, args: 0 }, &[repr_of(a), repr_of(b)], (None, None), Expect { frame: Some(pad(&[a, b, V::T(tag)])) });
+});
+
+//@ tier=extended cap=1800 mem=12 funcs=ExecuteContext::execute_ bound=frame_of_2_slots;args=0
+step_harness!(c01_step_ConstructRecord_0, {
+    let (a, b) = (any_scalar(), any_scalar());
+    check_step(ConstructRecord { record: 0, args: 0 }, &[repr_of(a), repr_of(b)], (None, None), Expect { frame: Some(pad(&[a, b, V::T(0)])) });
+});
+
+//@ tier=extended cap=1800 mem=12 funcs=ExecuteContext::execute_,StackFrame::pop_many bound=uninitialised_data_of_2_fields_at_slot_0;2_values_on_top
+step_harness!(c01_step_CloseData, {
+    let (x, y) = (any_scalar(), any_scalar());
+    let tag: VmTag = kani::any();
+    // the object `NewVariant`/`NewRecord` left in slot 0, fields still zero
+    let d = data(tag, Some(V::I(0)), Some(V::I(0)));
+    let addr = &*d as *const DataStruct as usize;
+    check_step(
+        CloseData { index: 0 },
+        &[ValueRepr::Data(unsafe { d.unrooted() }), repr_of(x), repr_of(y)],
+        (None, None),
+        Expect { frame: Some(pad(&[V::D(addr)])) },
+    );
+    // the fields now hold the two values, in stack order; the tag is untouched
+    assert!(d.tag() == tag && d.fields.len() == 2);
+    assert!(shape(&d.fields[0]) == x, "first field = lower stack slot");
+    assert!(shape(&d.fields[1]) == y, "second field = top of stack");
+});
+
+//@ tier=extended cap=2400 mem=24 funcs=ExecuteContext::execute_,thread::alloc,Gc::alloc_and_collect,Gc::alloc_owned,Def::initialize,StackFrame::pop_many bound=frame_of_2_slots;tag_any_u32;args=1
+#[kani::proof]
+#[kani::unwind(4)]
+#[kani::stub(rstd::fmt::format, fmt_stub)]
+#[kani::stub(Gc::get_type_info, type_info_stub)]
+fn c01_alloc_ConstructVariant_1() {
+    let (a, b) = (any_scalar(), any_scalar());
+    let tag: VmTag = kani::any();
+    let st = stop();
+    let i = ConstructVariant { tag, args: 1 };
+    let out = run(vec![i, st[0], st[1], Return], &[repr_of(a), repr_of(b)], (None, None));
+    match out {
+        Outcome::Failed { message, frame, len } => {
+            assert!(message && len == 3, "one argument replaced by one object, then the marker");
+            assert!(frame[0] == a && frame[2] == V::I(MARK));
+            match frame[1] {
+                V::D(addr) => {
+                    let d = unsafe { &*(addr as *const DataStruct) };
+                    assert!(d.tag() == tag && d.fields.len() == 1);
+                    assert!(shape(&d.fields[0]) == b, "the field is the popped argument");
+                }
+                _ => assert!(false, "a data object is pushed"),
+            }
+            assert!(i.adjust() == 0);
+        }
+        _ => assert!(false, "interpreter did not stop at the stop device"),
+    }
+    kani::cover!(true, "step checked");
+}
